@@ -483,7 +483,7 @@ func (c *Ctx) plySpecGen() plySpec {
 		fe := &plySpecFaceElem{short: c.Rng.Intn(2) == 0, cntTy: []string{"uchar", "uchar", "int", "uint"}[c.Rng.Intn(4)],
 			idxTy: []string{"int", "uint"}[c.Rng.Intn(2)], idxAlias: c.Rng.Intn(3) == 0, hasTex: c.Rng.Intn(3) == 0,
 			texCnt: []string{"uchar", "int", "uint"}[c.Rng.Intn(3)], texItem: "float", texFirst: c.Rng.Intn(2) == 0}
-		if c.Rng.Intn(4) == 0 {
+		if c.Rng.Intn(3) == 0 {
 			fe.extra = 1 + c.Rng.Intn(2)
 		}
 		nf := 1 + c.Rng.Intn(5)
@@ -518,7 +518,13 @@ func (c *Ctx) plySpecGen() plySpec {
 				}
 			}
 			if fe.extra != 0 {
-				for j := c.Rng.Intn(4); j > 0; j-- {
+				n := c.Rng.Intn(4)
+				if c.Rng.Intn(3) == 0 {
+					// long unrecognised lists: a uchar count holds 0…255 (126 … 129, 200, 255: around the signed limit)
+					n = []int{126, 127, 128, 129, 200, 255, 128 + c.Rng.Intn(128)}[c.Rng.Intn(7)]
+					c.Note("face:extra-list-long")
+				}
+				for j := n; j > 0; j-- {
 					fc.extra = append(fc.extra, c.Rng.Intn(2001)-1000)
 				}
 			}
@@ -558,7 +564,7 @@ func (c *Ctx) plySpecCaseEP(s plySpec, holdsOp string, fullEntries bool) {
 	// the same ASCII file as other tools end it: last record without line terminator, CR LF line ends in the body, a lone CR
 	// at the end, a blank line at the end — the file describes the same mesh
 	if s.format == "ascii" && c.Rng.Intn(2) == 0 {
-		if v, name := plyAsciiTailVariant(data, c.Rng.Intn(5)); v != nil {
+		if v, name := plyAsciiTailVariant(data, c.Rng.Intn(10)); v != nil {
 			c.Note("ascii-tail:" + name)
 			c.plySpecFile(st, v, holdsOp, false)
 		}
@@ -602,8 +608,45 @@ func plyAsciiTailVariant(data []byte, k int) ([]byte, string) {
 		b, name = crlf[:len(crlf)-2], "crlf-no-final-newline"
 	case 3:
 		b, name = crlf[:len(crlf)-1], "crlf-final-cr-only"
-	default:
+	case 4:
 		b, name = append(append([]byte{}, body...), '\n'), "blank-last-line"
+	default:
+		// EMPTY lines inside the body (both the vertex and the face loop skip them): after every line / before the body
+		// and after the first line / after a random line (between the blocks, between two vertex or two face lines),
+		// as LF or CR LF blank lines
+		lines := bytes.SplitAfter(body, []byte("\n"))
+		lines = lines[:len(lines)-1] // (the piece after the final LF is empty)
+		blank := []byte("\n")
+		if k%2 == 1 {
+			blank = []byte("\r\n")
+		}
+		name = map[int]string{5: "blank-after-every-line(crlf)", 6: "blank-before-body-and-after-first", 7: "blank-after-half-of-the-lines(crlf)",
+			8: "blank-after-every-line", 9: "two-blanks-before-last-line(crlf)"}[k]
+		for i, l := range lines {
+			switch k {
+			case 6:
+				if i == 0 {
+					b = append(b, blank...)
+				}
+			case 9:
+				if i == len(lines)-1 {
+					b = append(append(b, blank...), blank...)
+				}
+			}
+			b = append(b, l...)
+			switch k {
+			case 5, 8:
+				b = append(b, blank...)
+			case 6:
+				if i == 0 {
+					b = append(b, blank...)
+				}
+			case 7:
+				if (i*7+len(lines))%2 == 0 {
+					b = append(b, blank...)
+				}
+			}
+		}
 	}
 	return append(append([]byte{}, hdr...), b...), name
 }
@@ -746,14 +789,14 @@ func runC08(c *Ctx) {
 		s := plySpec{format: "ascii", vprops: xyz, verts: [][]float64{{1, 2, 3}, {4, 5, 6}, {7, 8, 9.5}},
 			face: &plySpecFaceElem{cntTy: "uchar", idxTy: "int", faces: []plySpecFace{{verts: []int{0, 1, 2}}, {verts: []int{2, 1, 0}}}}}
 		data := plyRefEncode(s)
-		for k := 0; k < 5; k++ {
+		for k := 0; k < 10; k++ {
 			v, name := plyAsciiTailVariant(data, k)
 			c.Note("ascii-tail:" + name)
 			c.plySpecFile(plySpecTok(s), v, "c08.holds.meaning", k == 0)
 		}
 		s.face = nil
 		data = plyRefEncode(s)
-		for k := 0; k < 5; k++ {
+		for k := 0; k < 10; k++ {
 			v, _ := plyAsciiTailVariant(data, k)
 			c.plySpecFile(plySpecTok(s), v, "c08.holds.meaning", false)
 		}
